@@ -51,7 +51,34 @@ func runC10(res *vh.Result) {
 		"report identity = start time (10 s apart per serial) or total volume; both derive from the kernel's report serial",
 	}
 	ncases := vh.Tiered(1200, 20000)
-	res.Cases(ncases, func(ci int, rng *vh.Rng) {
+	// in addition, PFCP-level histories (model data plane, injected reports, take-over of a session by a new node id,
+	// re-association, CP-SEIDs colliding across peers): every Session Report Request must arrive at the SMF that owns
+	// the session at that moment, addressed with the peer's SEID
+	nhist := vh.Tiered(600, 15000)
+	histProfile := vh.GenProfile{MinOps: 10, MaxOps: 30, MaxNodes: 3, MaxSess: 6, Negative: 1, Reports: 12, RuleChurn: 4, Reassoc: 2, Takeover: true, NoDupCreate: true}
+	rn := &vh.Runner{}
+	res.Cases(ncases+nhist, func(ci int, rng *vh.Rng) {
+		if ci >= ncases {
+			h := vh.Generate(rng, histProfile)
+			tr := rn.Run(h, nil)
+			if faultCrash(res, ci, "C10", h, nil, tr) {
+				res.Eval("")
+				return
+			}
+			an := vh.Analyze(tr)
+			reportFindings(res, ci, "C10", h, nil, an, tr)
+			reps := 0
+			for _, st := range tr.Steps {
+				reps += len(st.Reports)
+			}
+			res.Count("history_report_requests", int64(reps))
+			sig := ""
+			if reps >= 2 {
+				sig = vh.Sig(abstract(tr))
+			}
+			res.Eval(sig)
+			return
+		}
 		k := vh.NewKernel()
 		k.UpdReport = rng.Bool()
 		fs, err := vh.StartFull(vh.FullOpts{SMFs: 2, Kernel: k})
